@@ -788,31 +788,40 @@ def check_truth_read(p, truth, text, truth_if, specs, probe, bump):
     if spec is None:
         return v
     bump(probe, "truth_read_checked_against_spec")
-    want = spec_iface(spec)
     if truth == "class" and p.get("legacy_attr"):
         # render_target also wrote the un-annotated `legacy = 1`, which is part of what cdd reads
         truth_if = [t for t in truth_if if t[0] != "legacy"]
-    if [w[0] for w in want] != [t[0] for t in truth_if]:
-        return [{"clause": "B2", "detail": "truth %s written with parameters %s is read as %s" % (
-            truth, [w[0] for w in want], [t[0] for t in truth_if]), "sig": {"what": "truth_misread", "truth": truth, "field": "names"}}]
-    for w, t in zip(want, truth_if):
-        fields = []
+    for fld, name, a, b in read_vs_spec(truth, spec, truth_if):
+        if fld == "names":
+            return [{"clause": "B2", "detail": "truth %s written with parameters %s is read as %s" % (truth, a, b),
+                     "sig": {"what": "truth_misread", "truth": truth, "field": "names"}}]
+        v.append({"clause": "B2", "detail": "truth %s: %s of %s was written as %r and is read as %r" % (
+            truth, fld, name, a, b), "sig": {"what": "truth_misread", "truth": truth, "field": fld,
+                                             "written": a if fld != "description" else None,
+                                             "read": b if fld != "description" else None}})
+    return v
+
+
+def read_vs_spec(kind, spec, iface):
+    """[(field, parameter, written, read)]: where what cdd read (iface_of shape) differs from the spec the harness
+    rendered the source from, the three documented normalisations excepted (None default marker, no spelling of Optional
+    in argparse source, argparse parameters without an explicit non-None default)."""
+    want = spec_iface(spec)
+    if [w[0] for w in want] != [t[0] for t in iface]:
+        return [("names", None, [w[0] for w in want], [t[0] for t in iface])]
+    out = []
+    for w, t in zip(want, iface):
         # argparse source has no spelling for Optional (the renderer writes `type=T` without `required=True`)
-        wt = w[1][len("Optional["):-1] if truth == "argparse_function" and w[1].startswith("Optional[") and \
+        wt = w[1][len("Optional["):-1] if kind == "argparse_function" and w[1].startswith("Optional[") and \
             not (t[1] or "").startswith("Optional[") else w[1]
         if wt != t[1]:
-            fields.append(("type", w[1], t[1]))
+            out.append(("type", w[0], w[1], t[1]))
         if w[2] != t[2] and not (w[2] == "None" and t[2] in NONE_MARKS) and \
-                not (w[2] in ("<absent>", "None") and truth == "argparse_function"):
-            fields.append(("default", w[2], t[2]))
+                not (w[2] in ("<absent>", "None") and kind == "argparse_function"):
+            out.append(("default", w[0], w[2], t[2]))
         if w[3] != t[3]:
-            fields.append(("description", w[3], t[3]))
-        for fld, a, b in fields:
-            v.append({"clause": "B2", "detail": "truth %s: %s of %s was written as %r and is read as %r" % (
-                truth, fld, w[0], a, b), "sig": {"what": "truth_misread", "truth": truth, "field": fld,
-                                                  "written": a if fld != "description" else None,
-                                                  "read": b if fld != "description" else None}})
-    return v
+            out.append(("description", w[0], w[3], t[3]))
+    return out
 
 
 def _fd(a, b):
